@@ -352,4 +352,241 @@ example : ∃ y : Nat → ℝ, IsLeastSquares (stageA exO exL).eqs (stageA exO e
   exact ⟨_, hls, fun s hs => consistent_lfq exO exL (by decide) rfl (by decide) exF exG exF_ne exG_pos
     ex_consistent _ hls 0 ex_linked s hs⟩
 
+
+/-! ## The written table: fractions, SILAC channels, `LFQ Intensity [<channel> ]<experiment>` columns
+
+observe_at: "'LFQ Intensity <experiment>' columns of the written table".  The model section "The written table"
+(`Model/C11.lean`) covers what lies between an evidence row and a named cell: the `Fraction` cell or the design's
+fraction in the (peptide, charge, experiment, fraction) key, the experiment list and its order, the
+identified-precursor filter, SILAC channels as samples `e * C + c`, and the header list zipped with the value list.
+The driver's `lfqTable` runs it against `python -m picked_group_fdr.quantification` (`harness/props/C11.py`,
+kind "table"), where the cells are read back BY HEADER NAME. -/
+
+/-- label-free written tables are the model the fifteen theorems above speak about: with no SILAC channels stage A of
+    a protein group of the table is `stageA` on the precursors that pass the identified-precursor filter, the
+    experiment index being the position in the table's experiment list. -/
+theorem table_labelfree_is_stageA (o : Opts) (rows : List Row) :
+    tableStageA o 0 rows = stageA o ((retainIdentified o.cutoff rows).map Row.base) :=
+  tableStageA_labelfree o rows
+
+/-- "_getPeptideIntensities: best precursor per (peptide, charge, experiment, fraction)" with SILAC: the rows whose
+    channel intensities are used are chosen by their base fields (`Intensity`, PEP) exactly as `selected` chooses —
+    so `selected_best_per_group` describes them. -/
+theorem rows_selected_as_precursors (c : Rat) (l : List Row) :
+    (selectedRows c l).map Row.base = selected c (l.map Row.base) :=
+  selectedRows_base c l
+
+/-- quantifier: "(… missing values, fractions, charge states …)" — MaxLFQ sums a precursor's intensity over the
+    fractions of an experiment: the cell of (precursor `k`, sample `s`) of the intensity matrix handed to the ratio
+    step is, for every fraction in which the precursor has an identified, quantified row, the highest intensity among
+    these rows, summed over the fractions (`aggregateFractions`). -/
+theorem fractions_summed (c : Rat) (l : List Prec) (k : String × Int) (s : Nat) :
+    cell (selected c l) k s = aggregateFractions c l k s :=
+  cell_eq_aggregateFractions c l k s
+
+/-- "the LFQ intensities sum to the summed intensity of the peptides used", through the aggregation: the per-fraction
+    group intensities, summed over fractions, precursors and samples, are the total the LFQ intensities are scaled
+    to (`sum_preserved`). -/
+theorem total_preserved_through_fractions (c : Rat) (l : List Prec) (n : Nat) (hn : ∀ p ∈ l, p.exp < n) :
+    ((rowKeys (selected c l)).map (fun k => ((List.range n).map (fun s => aggregateFractions c l k s)).sum)).sum =
+      total (selected c l) :=
+  sum_aggregateFractions c l n hn
+
+/-- SILAC: the labelled sample (experiment `e`, channel `c`) is column `e * C + c`: its cell for precursor `k` is the
+    sum of the channel-`c` intensities of the selected rows of `k` in experiment `e` (one row per fraction), and the
+    total is the sum of all channel intensities of the selected rows. -/
+theorem silac_cell_is_channel_sum {C : Nat} (hC : 0 < C) (cutoff : Rat) (rows : List Row)
+    (hlen : ∀ r ∈ rows, r.silac.length ≤ C) (k : String × Int) (e c : Nat) (hc : c < C) :
+    cell (tableSel cutoff C rows) k (e * C + c) =
+      (((selectedRows cutoff (retainIdentified cutoff rows)).filter
+          (fun r => (r.base.peptide, r.base.charge) == k && r.base.exp == e)).map (fun r => r.silac.getD c 0)).sum ∧
+    total (tableSel cutoff C rows) =
+      ((selectedRows cutoff (retainIdentified cutoff rows)).map (fun r => r.silac.sum)).sum := by
+  have hsub : ∀ r ∈ selectedRows cutoff (retainIdentified cutoff rows), r.silac.length ≤ C := fun r hr =>
+    hlen r (List.mem_filter.mp (mem_of_mem_selectedRows _ _ r hr).1).1
+  exact ⟨cell_silac hC _ hsub k e c hc, total_silac hC _⟩
+
+/-- "the summed intensity of the peptides used" for the table: the total of a protein group is the sum of all
+    entries of its intensity matrix over the `n · max 1 C` labelled samples. -/
+theorem table_total_is_matrix_sum (o : Opts) (C : Nat) (rows : List Row)
+    (hrows : ∀ r ∈ rows, r.base.exp < o.n ∧ r.silac.length ≤ C) :
+    ((tableStageA o C rows).keys.map (fun k =>
+      ((List.range (numSamples o.n C)).map (fun s => cell (tableSel o.cutoff C rows) k s)).sum)).sum =
+        (tableStageA o C rows).total := by
+  refine matrix_sum (numSamples o.n C) (tableSel o.cutoff C rows) ?_
+  intro p hp
+  unfold tableSel at hp
+  obtain ⟨r, hr, hpr⟩ := List.mem_flatMap.mp hp
+  have hrow := hrows r (List.mem_filter.mp (mem_of_mem_selectedRows _ _ r hr).1).1
+  exact exp_lt_of_mem_expandRow r hrow.1 hrow.2 p hpr
+
+/-- `LFQIntensityColumns.append_headers` / `append_columns`: the header list and the value list are the SAME
+    experiment-major enumeration of the samples (channel inside), for every number of experiments and channels:
+    position `e · max 1 C + c` of the written row pairs the name of sample (experiment `e`, channel `c`) with the LFQ
+    intensity of sample `e · max 1 C + c`; and there are exactly `n · max 1 C` named cells. -/
+theorem lfq_headers_values_aligned {α : Type} (chans exps : List (List Char)) (v : Nat → α) :
+    (namedColumns chans exps v).length = numSamples exps.length chans.length ∧
+    (namedColumns chans exps v).map Prod.snd = lfqValues exps.length chans.length v ∧
+    ∀ e c, e < exps.length → c < max 1 chans.length →
+      (namedColumns chans exps v)[e * max 1 chans.length + c]? =
+        some (if chans.isEmpty then lfqHeader none (exps.getD e [])
+              else lfqHeader (some (chans.getD c [])) (exps.getD e []), v (e * max 1 chans.length + c)) := by
+  refine ⟨?_, map_snd_namedColumns chans exps v, fun e c he hc => getElem?_namedColumns chans exps v e c he hc⟩
+  rw [← List.length_map (f := Prod.fst), map_fst_namedColumns, length_lfqHeaders]
+
+/-- "the value under the header `LFQ Intensity <channel> <experiment>` is the LFQ intensity of THAT sample": with
+    distinct experiment names and the channel names of `get_silac_channels` (none, L/H, L/M/H) the header names are
+    distinct, and reading the written row back BY HEADER NAME returns the value of the sample the name denotes. -/
+theorem lfq_value_by_header_name {α : Type} {C : Nat} {chans : List (List Char)} (hC : silacChannels C = some chans)
+    (exps : List (List Char)) (hexp : exps.Nodup) (v : Nat → α) (e c : Nat) (he : e < exps.length)
+    (hc : c < max 1 C) :
+    (lfqHeaders chans exps).Nodup ∧
+    List.lookup (if chans.isEmpty then lfqHeader none (exps.getD e [])
+                 else lfqHeader (some (chans.getD c [])) (exps.getD e [])) (namedColumns chans exps v) =
+      some (v (e * max 1 C + c)) := by
+  obtain ⟨hlen, hnd, h1⟩ := silacChannels_spec hC
+  have hnodup := nodup_lfqHeaders chans exps hexp hnd h1
+  refine ⟨hnodup, ?_⟩
+  subst hlen
+  exact lookup_of_getElem? _ _ _ _ (by rw [map_fst_namedColumns]; exact hnodup)
+    (getElem?_namedColumns chans exps v e c he hc)
+
+/-- the experiment list of the model (`sorted(parsed_experiments)` or the design's `unique()`) has no duplicates, so
+    `lfq_value_by_header_name` applies to the header names built from it. -/
+theorem experiment_list_nodup (d : Option Design) (rows : List EvRow) :
+    (experimentsOf d rows).Nodup ∧ ((experimentsOf d rows).map String.toList).Nodup :=
+  ⟨experimentsOf_nodup d rows, experiment_names_nodup d rows⟩
+
+/-- "If a protein's peptide intensities are consistent with one abundance per sample … the LFQ intensities are
+    proportional to the sample factors", per NAMED column of the written table: stabilisation off, at least one ratio
+    required, every quantified cell of the table's intensity matrix equal to `f k · g s` for the labelled samples
+    `s = e · max 1 C + c`, all samples linked by valid pairs; then for every least-squares solution `y` the cell
+    found under the header of (experiment `e`, channel `c`) is `total · g s / Σ g`. -/
+theorem table_consistent_by_header (o : Opts) {C : Nat} {chans : List (List Char)}
+    (hC : silacChannels C = some chans) (exps : List (List Char)) (hexp : exps.Nodup) (hlen : exps.length = o.n)
+    (rows : List Row) (hn : 2 ≤ numSamples o.n C) (hstab : o.stab = false) (hm : 1 ≤ o.minRatios)
+    (f : String × Int → Rat) (g : Nat → Rat) (hf : ∀ k, f k ≠ 0) (hg : ∀ s, 0 < g s)
+    (hcons : ∀ k ∈ rowKeys (tableSel o.cutoff C rows), ∀ s, s < numSamples o.n C →
+      cell (tableSel o.cutoff C rows) k s = 0 ∨ cell (tableSel o.cutoff C rows) k s = f k * g s)
+    (y : Nat → ℝ) (hls : IsLeastSquares (tableStageA o C rows).eqs (tableStageA o C rows).system y)
+    (i0 : Nat) (hconn : ∀ s, s < numSamples o.n C → Linked (tableStageA o C rows).eqs i0 s)
+    (e c : Nat) (he : e < o.n) (hc : c < max 1 C) :
+    List.lookup (if chans.isEmpty then lfqHeader none (exps.getD e [])
+                 else lfqHeader (some (chans.getD c [])) (exps.getD e []))
+      (namedColumns chans exps (lfq (numSamples o.n C) (tableStageA o C rows).system.zeroCols
+        (((tableStageA o C rows).total : Rat) : ℝ) (fun t => Real.exp (y t)))) =
+      some ((((tableStageA o C rows).total : Rat) : ℝ) * (g (e * max 1 C + c) : ℝ) /
+        vsum (numSamples o.n C) (fun t => (g t : ℝ))) := by
+  rw [(lfq_value_by_header_name hC exps hexp _ e c (by omega) hc).2]
+  congr 1
+  have hs : e * max 1 C + c < numSamples o.n C := by
+    unfold numSamples
+    have : (e + 1) * max 1 C ≤ o.n * max 1 C := Nat.mul_le_mul_right _ he
+    have h2 : (e + 1) * max 1 C = e * max 1 C + max 1 C := by ring
+    omega
+  exact consistent_lfq_with { o with n := numSamples o.n C } (tableSel o.cutoff C rows) (tableStab o.cutoff C rows)
+    hn hstab hm f g hf hg hcons y hls i0 hconn _ hs
+
+/-- "the LFQ intensities sum to the summed intensity of the peptides used", on the written row: whenever one LFQ
+    cell of a protein group is positive, the values of its `n · max 1 C` named LFQ cells add up to the total. -/
+theorem table_sum_preserved (chans exps : List (List Char)) (zero : List Nat) (tot : Rat) (v : Nat → Rat)
+    (hv : ∀ s, 0 ≤ v s)
+    (hpos : ∃ s, s < numSamples exps.length chans.length ∧
+      0 < lfq (numSamples exps.length chans.length) zero tot v s) :
+    ((namedColumns chans exps (lfq (numSamples exps.length chans.length) zero tot v)).map Prod.snd).sum = tot := by
+  rw [map_snd_namedColumns]
+  exact lfq_sum_preserved _ zero tot v hv hpos
+
+/-! ### Non-vacuity of the table theorems
+
+Two experiments × two SILAC channels = four labelled samples with factors `g = (10, 20, 40, 80)`; peptides with
+factors 1 and 3.  `PEPA` of experiment 0 is split over fractions 1 and 2 (`[4, 8] + [6, 12] = [10, 20]`), `PEPB` of
+experiment 0 has a duplicate row of lower intensity (dropped), its row in experiment 1 is a match-between-runs row
+(NaN PEP, kept because `PEPB` is identified elsewhere), `PEPC` is never identified (dropped by the
+identified-precursor filter). -/
+
+private def tR : List Row := [
+  ⟨⟨"PEPA", 2, 0, 1, 12, some (1/1000)⟩, [4, 8]⟩, ⟨⟨"PEPA", 2, 0, 2, 18, some (1/1000)⟩, [6, 12]⟩,
+  ⟨⟨"PEPA", 2, 1, 1, 120, some (1/1000)⟩, [40, 80]⟩, ⟨⟨"PEPB", 2, 0, 1, 90, some (1/1000)⟩, [30, 60]⟩,
+  ⟨⟨"PEPB", 2, 1, 1, 360, none⟩, [120, 240]⟩, ⟨⟨"PEPB", 2, 0, 1, 9, some (1/10000)⟩, [3, 6]⟩,
+  ⟨⟨"PEPC", 2, 0, 1, 50, some (1/2)⟩, [20, 30]⟩]
+
+private def tO : Opts := { n := 2, cutoff := 1/100, minRatios := 2, stab := false, graph := none, minSamples := 10 }
+private def tG : Nat → Rat := fun s => if s = 0 then 10 else if s = 1 then 20 else if s = 2 then 40 else 80
+private theorem tG_pos (s : Nat) : 0 < tG s := by unfold tG; split_ifs <;> norm_num
+private def tExps : List (List Char) := ["liver".toList, "brain".toList]
+
+private theorem t_stageA : tableStageA tO 2 tR =
+    { keys := [("PEPA", 2), ("PEPB", 2)], cols := [[10, 30], [20, 60], [40, 120], [80, 240]], total := 600,
+      validCols := [0, 1, 2, 3],
+      eqs := [⟨0, 1, 1/2, 0, 1⟩, ⟨0, 2, 1/4, 0, 1⟩, ⟨0, 3, 1/8, 0, 1⟩, ⟨1, 2, 1/2, 0, 1⟩, ⟨1, 3, 1/4, 0, 1⟩, ⟨2, 3, 1/2, 0, 1⟩],
+      system := { pairs := [(0, 1), (0, 2), (0, 3), (1, 2), (1, 3), (2, 3)], seen := [0, 1, 2, 3], zeroCols := [] } } := by
+  decide +kernel
+
+/-- `fractions_summed`: `PEPA` in experiment 0 is measured in fractions 1 and 2 (12 + 18) -/
+example : aggregateFractions (1/100) (tR.map Row.base) ("PEPA", 2) 0 = 30 ∧
+    fractionsOf (1/100) (tR.map Row.base) ("PEPA", 2) 0 = [1, 2] ∧
+    groupBest (1/100) (tR.map Row.base) ("PEPB", 2) 0 1 = 90 := by decide +kernel
+
+/-- `silac_cell_is_channel_sum`: sample (experiment 0, channel H) = column 1 holds 8 + 12 for `PEPA` -/
+example : cell (tableSel (1/100) 2 tR) ("PEPA", 2) (0 * 2 + 1) = 20 ∧ (∀ r ∈ tR, r.silac.length ≤ 2) := by
+  decide +kernel
+
+/-- `table_total_is_matrix_sum`: hypotheses on the example -/
+example : ∀ r ∈ tR, r.base.exp < tO.n ∧ r.silac.length ≤ 2 := by decide
+
+/-- `lfq_headers_values_aligned` / `lfq_value_by_header_name` on two experiments × L/H: experiment-major names, and
+    a channel-major header list (what a hoisted channel loop would give) is a different list -/
+example : (namedColumns [['L'], ['H']] tExps (fun s => s)).map (fun x => (String.ofList x.1, x.2)) =
+      [("LFQ Intensity L liver", 0), ("LFQ Intensity H liver", 1), ("LFQ Intensity L brain", 2), ("LFQ Intensity H brain", 3)] ∧
+    silacChannels 2 = some [['L'], ['H']] ∧ tExps.Nodup ∧
+    [['L'], ['H']].flatMap (fun c => tExps.map (fun e => lfqHeader (some c) e)) ≠ lfqHeaders [['L'], ['H']] tExps := by
+  decide
+
+/-- label-free: one column per experiment -/
+example : (namedColumns [] tExps (fun s => s)).map (fun x => (String.ofList x.1, x.2)) =
+    [("LFQ Intensity liver", 0), ("LFQ Intensity brain", 1)] ∧ silacChannels 0 = some [] := by decide
+
+/-- `experiment_list_nodup`: without a design the experiments are the sorted distinct names -/
+example : experimentsOf none [⟨"P", 2, "r1", "liver", -1, 1, [], none⟩, ⟨"P", 2, "r2", "brain", -1, 1, [], none⟩,
+    ⟨"P", 2, "r1", "liver", -1, 1, [], none⟩] = ["brain", "liver"] := by decide
+
+private theorem t_consistent : ∀ k ∈ rowKeys (tableSel tO.cutoff 2 tR), ∀ s, s < numSamples tO.n 2 →
+    cell (tableSel tO.cutoff 2 tR) k s = 0 ∨ cell (tableSel tO.cutoff 2 tR) k s = exF k * tG s := by
+  decide +kernel
+
+private theorem t_linked : ∀ s, s < numSamples tO.n 2 → Linked (tableStageA tO 2 tR).eqs 0 s := by
+  intro s hs
+  rw [t_stageA]
+  have h4 : s < 4 := hs
+  obtain rfl | rfl | rfl | rfl : s = 0 ∨ s = 1 ∨ s = 2 ∨ s = 3 := by omega
+  · exact Relation.ReflTransGen.refl
+  · exact Relation.ReflTransGen.single ⟨⟨0, 1, 1/2, 0, 1⟩, by simp, Or.inl ⟨rfl, rfl⟩⟩
+  · exact Relation.ReflTransGen.single ⟨⟨0, 2, 1/4, 0, 1⟩, by simp, Or.inl ⟨rfl, rfl⟩⟩
+  · exact Relation.ReflTransGen.single ⟨⟨0, 3, 1/8, 0, 1⟩, by simp, Or.inl ⟨rfl, rfl⟩⟩
+
+/-- `table_consistent_by_header`: a least-squares solution exists (the centred logarithms of `g`), all four labelled
+    samples are linked, and the cell under `LFQ Intensity H brain` (experiment 1, channel 1, sample 3) is
+    `600 · 80 / 150` -/
+example : ∃ y : Nat → ℝ, IsLeastSquares (tableStageA tO 2 tR).eqs (tableStageA tO 2 tR).system y ∧
+    List.lookup "LFQ Intensity H brain".toList
+      (namedColumns [['L'], ['H']] tExps (lfq (numSamples tO.n 2) (tableStageA tO 2 tR).system.zeroCols
+        (((tableStageA tO 2 tR).total : Rat) : ℝ) (fun t => Real.exp (y t)))) =
+      some ((((tableStageA tO 2 tR).total : Rat) : ℝ) * (tG 3 : ℝ) / vsum (numSamples tO.n 2) (fun t => (tG t : ℝ))) := by
+  have hcons := rhs_of_consistent_with { tO with n := numSamples tO.n 2 } (tableSel tO.cutoff 2 tR)
+    (tableStab tO.cutoff 2 tR) rfl (by decide) exF tG exF_ne tG_pos t_consistent
+  have hlt : ∀ q ∈ (tableStageA tO 2 tR).eqs, q.i < numSamples tO.n 2 ∧ q.j < numSamples tO.n 2 := by
+    intro q hq
+    have := stageAWith_eq_mem { tO with n := numSamples tO.n 2 } _ _ q hq
+    exact ⟨Nat.lt_trans this.1 this.2.1, this.2.1⟩
+  have hls : IsLeastSquares (tableStageA tO 2 tR).eqs (tableStageA tO 2 tR).system
+      (centred (tableStageA tO 2 tR).system (fun t => Real.log (tG t : ℝ))) := by
+    unfold tableStageA
+    rw [stageAWith_system]
+    exact centred_isLeastSquares (numSamples tO.n 2) _ hlt (fun t => Real.log (tG t : ℝ)) hcons
+  refine ⟨_, hls, ?_⟩
+  have h := table_consistent_by_header tO (C := 2) (chans := [['L'], ['H']]) rfl tExps (by decide) rfl tR (by decide) rfl
+    (by decide) exF tG exF_ne tG_pos t_consistent _ hls 0 t_linked 1 1 (by decide) (by decide)
+  exact h
+
 end PgFdr.C11
